@@ -110,7 +110,14 @@ def parse_out_param(expr, require_default=False, emit_default_doc=True):
         ),
         "str",
     )
-    name: str = get_value(expr.value.args[0])[len("--") :]
+    # `add_argument("-n", "--name")`, `add_argument("name")`: the long option names the parameter, dashes are not part of it
+    name: str = next(
+        filter(
+            lambda option_string: option_string.startswith("--"),
+            map(get_value, expr.value.args),
+        ),
+        get_value(expr.value.args[0]),
+    ).lstrip("-")
     default: Optional[Any] = next(
         (
             get_value(key_word.value)
